@@ -121,6 +121,8 @@ BATTERIES['Functions'] = [
   ('Poly2D/Poly2DOffset', 'concat (map (fun x => let cs := [[1; -2; 3; 1#2]; [2; 0; -1; 1]; [-(1#2); 1; 1; 0]] in let c3 := [[1; -2; 3]; [2; 0; -1]; [-(1#2); 1; 1]] in let off := [1#2; -1; 2] in '
                           'enc_v (@M@.Poly2D_vector cs x) ++ enc_s (@M@.Poly2D_call cs x) ++ enc_v (@M@.Poly2D_deriv cs x) ++ enc_m (@M@.Poly2D_hess cs x) ++ '
                           'enc_v (@M@.Poly2DOffset_vector c3 off x) ++ enc_s (@M@.Poly2DOffset_call c3 off x) ++ enc_v (@M@.Poly2DOffset_deriv c3 off x) ++ enc_m (@M@.Poly2DOffset_hess c3 off x)) [va; vb; vc])'),
+  ('RangesFunction', 'concat (map (fun x => concat (map (fun rg => enc_s (@M@.RangesFunction_call rg [fobjA 1; fobjA 2; fobjA (-1)] x) ++ enc_v (@M@.RangesFunction_deriv rg [fobjA 1; fobjA 2; fobjA (-1)] x)) '
+                     '[[(0%nat, 3%nat)]; [(0%nat, 1%nat); (1%nat, 3%nat)]; [(0%nat, 1%nat); (1%nat, 2%nat); (2%nat, 3%nat)]; [(0%nat, 2%nat); (2%nat, 2%nat); (2%nat, 3%nat)]; []])) [va; vb; vc])'),
 ]
 BND = '[(0, 2); (1, 1); (-1, 3)]'
 BATTERIES['Classes'] = [
